@@ -18,16 +18,23 @@ def build(reg):
     T = sv_wiring.TE
     return dict(
         targets=[f"{T}:EvolveStateVector.evolve", f"{T}:EvolveStateVector.forward", f"{T}:EvolveDensityMatrix.apply",
-                 f"{sv_wiring.SVIMPL}:SVBackendImpl._evolve_step"],
+                 f"{sv_wiring.SVIMPL}:SVBackendImpl._evolve_step"]
+                + [f"{sv_wiring.SVIMPL}:{l}" for l in sv_wiring.INIT_LABELS],
         not_decided=NOT_DECIDED,
         trusted=["torch.autograd.Function.apply(*args) calls forward(ctx, *args)",
                  "krylov_exp and the operator action H*x / L@x are uninterpreted here (C07, C06)",
-                 "the step loop and the per-step dt are C14's obligations"],
+                 "the step loop and the per-step dt are C14's obligations",
+                 "storage identity: t.clone() is a new tensor, t.to(...) may return t itself, a state constructor stores "
+                 "the tensor it is given (emu_sv/state_vector.py, density_matrix_state.py: `.to(dtype, device)`)"],
     )
 
 
 # negative controls (thorough tier): (name, file, old text, new text)
-CONTROLS = [('Lindbladian exponentiated as Hermitian',
+CONTROLS = [('evolving state shares storage with the configured initial state',
+  'emu_sv/sv_backend_impl.py',
+  'config.initial_state.data.clone(), gpu=self.resolved_gpu',
+  'config.initial_state.data, gpu=self.resolved_gpu'),
+ ('Lindbladian exponentiated as Hermitian',
   'emu_sv/time_evolution.py',
   'is_hermitian=False',
   'is_hermitian=True'),
